@@ -84,7 +84,9 @@ class Calc:
             if (rec.fn is fn and v in (self.md, self.wb)) or rec.pre_env.get(v) in (Poly.atom(self.md), Poly.atom(self.wb)):
                 raise AnalysisError(f"{fn.qual}: parameter rebound in the loop")
         self.raises = [x for x in self.body if x.kind == "raise"]  # decided (reported) by C18.EXCL
-        self.body = [x for x in self.body if x.kind != "raise"]
+        # paths of one iteration after which no further battery is visited: decided (reported) by C18.EXCL
+        self.leaving = [x for x in self.body if x.kind in ("break", "return", "escape")]
+        self.body = [x for x in self.body if x.kind not in ("raise", "break", "return", "escape")]
         bad = [x for x in self.body if x.kind not in ("fall", "continue")]
         if bad:
             raise AnalysisError(f"{fn.qual}: `{bad[0].kind}` inside the aggregation loop")
@@ -271,16 +273,24 @@ def check_form(run: Run, prog: Program) -> None:  # noqa: C901
         want_ops = sorted([repr(ratio), repr(Poly.const(c))])
         return any(sorted(call_fact(f, "truthy", ("isclose",)) or []) == want_ops for f in x.facts)
 
+    def is_mean(v: Poly) -> bool:
+        """`v` is the weighted mean itself, possibly inside a clamp that does not cut into [0, 100]."""
+        lo, hi, core = interval(soc.sym, v)
+        return core == ratio and (lo is None or lo <= 0) and (hi is None or hi >= 100)
+
     # a constant is the pool value only when the total weight is zero or when the mean is (is)close to it
-    ok = bool(vals) and ratio in vals
+    ok = bool(vals) and any(is_mean(v) for v in vals)
     bad_vals: list[str] = []
     for x in soc.post:
         r = result_of(soc, x)
         w = soc.sym.parts(r[1], "wrap") if r is not None and r[1] != NONE else None
-        if w is None or w[1] != "Percentage.from_percent" or w[2] == ratio:
+        if w is None or w[1] != "Percentage.from_percent" or is_mean(w[2]):
             continue
         c = w[2].const_value()
-        if not (c is not None and 0 <= c <= 100 and (zero_total(x) or snapped(x, c))):
+        # (the if-statement form of the clamp: 100 where the mean is beyond 100, 0 where it is below 0)
+        cut = c is not None and ((c == 100 and any(f in (("<", "100", repr(ratio)), ("<=", "100", repr(ratio))) for f in x.facts))
+                                 or (c == 0 and any(f in (("<", repr(ratio), "0"), ("<=", repr(ratio), "0")) for f in x.facts)))
+        if not (c is not None and 0 <= c <= 100 and (zero_total(x) or snapped(x, c) or cut)):
             ok = False
             bad_vals.append(f"{w[2]!r} when {', '.join(fmt(f) for f in x.facts)}")
     run.check(ok, "C18.FORM", soc_fn.qual, "pct = Σ w·s / Σ w (or a constant in [0, 100])",
@@ -305,6 +315,44 @@ def check_form(run: Run, prog: Program) -> None:  # noqa: C901
             ok = False
     run.check(ok, "C18.RANGE", soc_fn.qual, "no division when the total weight is zero",
               "the weighted mean is computed although the total usable capacity is zero", node=soc_fn.node, file=soc_fn.file)
+    # ---- … and, as a float, the quotient is bounded above by 100 where it is handed to the result.  Every s is in
+    # [0, 100] and every w >= 0, so all partial sums are >= 0 and the float quotient is >= 0 exactly; but
+    # fl(Σ w·s) / fl(Σ w) of a full pool (every s == 100) is 100 only up to rounding: it can be 100.00000000000001.
+    def top_excluded(f: Any) -> bool:
+        """The fact rules out that the mean lies in the rounding neighbourhood above 100."""
+        if f in (("<", repr(ratio), "100"), ("<=", repr(ratio), "100")):
+            return True
+        st = soc.sym.struct.get(f[1]) if isinstance(f, tuple) and len(f) == 2 and f[0] == "falsy" and isinstance(f[1], str) else None
+        if st is None or st[0] != "call" or not (st[1] == "isclose" or st[1].endswith(".isclose")):
+            return False
+        tol = {k: v.const_value() for k, v in st[3].items()}
+        if set(tol) - {"rel_tol", "abs_tol"} or any(t is None for t in tol.values()):
+            return False
+        wide = not tol or tol.get("rel_tol", Fraction(0)) >= Fraction(1, 10 ** 12) or tol.get("abs_tol", Fraction(0)) >= Fraction(1, 10 ** 10)
+        return wide and sorted(repr(a) for a in st[2]) == sorted([repr(ratio), "100"])
+
+    over: list[str] = []
+    for x in soc.post:
+        r = result_of(soc, x)
+        w = soc.sym.parts(r[1], "wrap") if r is not None and r[1] != NONE else None
+        if w is None or w[1] != "Percentage.from_percent":
+            continue
+        _lo, hi, core = interval(soc.sym, w[2])
+        if (hi is not None and hi <= 100) or (core == ratio and any(top_excluded(f) for f in x.facts)):
+            continue
+        if core is not None and inv_den in repr(core):
+            over.append(f"returns {w[2]!r} when {', '.join(fmt(f) for f in x.facts) or 'always'}")
+    run.check(not over, "C18.RANGE", soc_fn.qual, "the pool SoC handed to the result is bounded above by 100 on every path",
+              "the float quotient Σ w·s / Σ w reaches the result on a path on which nothing bounds it by 100: "
+              + "; ".join(over[:2]) + ". Algebraically a weighted mean of values clamped to [0, 100] cannot leave the range, "
+              "in floating point it can: for a full pool (every battery at or above its upper limit) both sums are rounded "
+              "separately and the quotient is 100.00000000000001 for some capacity / limit combinations (about 0.7 % of random "
+              "pools), so the published SoC leaves [0, 100], a full pool is not == 100 and the value is not monotone at the top. "
+              "Every path that returns the quotient must either have refuted `isclose(quotient, 100)` (the snap to exactly "
+              "100.0 on the other branch), compared it `< / <= 100`, or return it inside `min(…, 100.0)` / an equivalent "
+              "clamp; (the lower end needs nothing: all terms are non-negative floats, so the quotient is >= 0 exactly). "
+              "Also excluded: a snap with a tolerance too small to cover rounding, a snap applied to another quantity, a "
+              "snap on one of several returning branches only", node=soc_fn.node, file=soc_fn.file)
     ok = bool(results) and all(w is not None and w[1] == "Percentage.from_percent" for w in wrapped)
     run.check(ok, "C18.FORM", soc_fn.qual, "returns Percentage.from_percent(pct)", "the computed value is not what is returned",
               node=soc_fn.node, file=soc_fn.file)
@@ -400,6 +448,31 @@ def check_excl_calc(run: Run, calc: Calc) -> None:
               node=muts[0][2] if muts else loop, file=fn.file)
     if muts:
         return  # the other obligations are stated for a loop over the arguments as they were passed
+    # every working battery is visited: a path of one iteration ends in the next iteration (fall through / continue)
+    lv = calc.leaving
+    how = ""
+    if lv:
+        x0 = lv[0]
+        line = getattr(x0.node, "lineno", "?")
+        stmt = " ".join(u(x0.node).split())[:80] if x0.node is not None else "?"
+        when = ", ".join(fmt(f) for f in x0.facts) or "always"
+        if x0.kind == "escape":
+            tr = calc.sym.escape_to.get(id(x0.node))
+            how = (f"`{stmt}` (line {line}) raises a lookup error when {when}, and the handler that catches it belongs to "
+                   f"the `try` at line {getattr(tr, 'lineno', '?')}, which encloses the whole loop: the exception ends the loop")
+        else:
+            how = f"`{stmt}` (line {line}) leaves the loop when {when}"
+    run.check(not lv, "C18.EXCL", fn.qual, "every working battery is visited: no path of one iteration leaves the loop",
+              how + ". A working battery that is absent from the data or lacks a metric is SKIPPED, it does not end the "
+              "aggregation: here the first such battery the (arbitrarily ordered) set iteration meets drops every working "
+              "battery that would be visited after it, so the pool value is smaller than the aggregate over the qualifying "
+              "batteries — or None although batteries qualify — depending on the iteration order. Keep the test per "
+              "battery: `if b not in data: continue`, `data.get(b)` + None test, or `try: m = data[b] / except KeyError: "
+              "continue` INSIDE the loop body. Also excluded: `break` / `return` on a missing entry or metric, a "
+              "try/except of the lookup error around the loop or in the caller of a helper that holds the loop",
+              node=lv[0].node if lv else loop, file=fn.file)
+    if lv:
+        return  # the guards below are stated for iterations that go on to the next battery
     run.check(calc.iter_term == calc.wb, "C18.EXCL", fn.qual, f"for battery_id in {calc.wb}",
               f"the aggregation iterates `{u(loop.iter)}` instead of the working batteries: batteries "
               "that are not working are included", node=loop, file=fn.file)
@@ -1087,6 +1160,37 @@ def check_fresh(run: Run, prog: Program) -> dict[str, Any]:  # noqa: C901
                   "component not counting as an update, a change test on identity / timestamps / another component's "
                   "entry, a comparison made after the cache was already overwritten, the trigger dropped on a branch",
                   node=loop, file=m.file, path=wit[:4] or None)
+        # … and no received record is left out: the cache the calculators read holds the LATEST record received from
+        # each component (arrival order), so every path that looked at a record (not None) stores it
+        pairs = {(f[2], f[3]) for x in leaves for f in x.facts if isinstance(f, tuple) and f[0] == "store" and f[1] == cache}
+        dropped: list[str] = []
+        for x in leaves:
+            if x.kind == "raise" or any(isinstance(f, tuple) and f[0] == "store" and f[1] == cache for f in x.facts):
+                continue
+            conds = [f for f in x.facts if not (isinstance(f, tuple) and f[0] in ("store", "effect"))]
+            for key, val in sorted(pairs):
+                if ("is", frozenset({val, "None"})) in conds or not any(val in fmt(f) for f in conds):
+                    continue  # nothing was received / the path never looked at the record
+                old = {f"{cache}[{key}]", f"{cache}.get({key})", f"{cache}.get({key}, None)"}
+                if any(g == ("==", frozenset({val, o})) for g in conds for o in old):
+                    compared = True
+                    continue  # equal (exactly, C18.FRESH record comparison) to the entry it would replace
+                dropped.append(f"`{val}` is not stored when {', '.join(fmt(f) for f in conds)}")
+                break
+        run.check(bool(pairs) and not dropped, "C18.FRESH", m.qual, f"every received record replaces {cache}[id]",
+                  f"a path of the per-message loop receives a record and goes on without storing it into {cache}: "
+                  f"{'; '.join(dropped[:2]) or 'no store found on the paths'}. calculate() is then handed an older entry "
+                  "instead of the component's current metrics. The cache mixes records stamped by the component "
+                  "(data.timestamp) with the EMPTY record the fetcher produces after MAX_BATTERY_DATA_AGE_SEC of silence, "
+                  "stamped with the local clock: a filter on the record (its timestamp against the cached one, its "
+                  "completeness, the working set, a rate limit) lets such an entry survive — a working battery whose clock "
+                  "lags and that delivers every metric again stays excluded from the pool SoC / capacity, or (dropping empty "
+                  "records) a silent battery keeps contributing stale values. The order of arrival decides which record is "
+                  "current: store every record that is not None, unconditionally. Also excluded: `>` / `>=` timestamp "
+                  "guards ('keep the most recent sample'), `if metrics.get(…) is not None` before the store, storing only "
+                  "for batteries in the working set, storing only when the record changed by a comparison that is not the "
+                  "exact record comparison", node=loop, file=m.file, path=dropped[:4] or None,
+                  instance=f"{m.qual}: every received record is stored")
     rec = record_class(prog)
     if compared:
         check_record_equality(run, prog, rec, f"{cls.name}")
@@ -1192,6 +1296,21 @@ def structural_controls(prog: Program) -> list[tuple[str, str, str, str, str]]: 
                 if isinstance(rec.orig.target, ast.Name):
                     add(f"{cname}: an argument is changed in place", MC,
                         [(first, f"{stmt}\n{' ' * first.col_offset}{seg(mc, first)}")], "C18.EXCL")
+                # an absent battery ends the aggregation: `break` instead of going on with the next battery …
+                conts = [n for b in rec.orig.body for n in ast.walk(b) if isinstance(n, ast.Continue)]
+                if conts:
+                    add(f"{cname}: the first skipped battery ends the loop", MC, [(conts[0], "break")], "C18.EXCL")
+                # … or the membership test turned into a bare lookup whose KeyError is caught around the whole loop
+                g = first
+                if isinstance(g, ast.If) and not g.orelse and len(g.body) == 1 and isinstance(g.body[0], ast.Continue) \
+                        and isinstance(g.test, ast.Compare) and len(g.test.ops) == 1 and isinstance(g.test.ops[0], ast.NotIn) \
+                        and u(g.test.left) == tgt and u(g.test.comparators[0]) in md_names and isinstance(rec.orig.target, ast.Name):
+                    col = rec.orig.col_offset
+                    text = seg(mc, rec.orig).replace(seg(mc, g), f"_probe = {md_names[0]}[{tgt}]", 1).splitlines()
+                    wrapped = "\n".join(["try:", " " * (col + 4) + text[0]] + ["    " + ln if ln.strip() else ln for ln in text[1:]]
+                                        + [" " * col + "except KeyError:", " " * (col + 4) + "pass"])
+                    add(f"{cname}: lookup error of an absent battery caught around the whole loop", MC,
+                        [(rec.orig, wrapped)], "C18.EXCL")
             # an accumulator replaced by "collect the contributions in a set, sum after the loop"
             body = list(fn.node.body)
             augs = [n for b in rec.orig.body for n in ast.walk(b) if isinstance(n, ast.AugAssign) and isinstance(n.op, ast.Add)
@@ -1262,6 +1381,12 @@ def structural_controls(prog: Program) -> list[tuple[str, str, str, str, str]]: 
              and u(n.test.func) in ("math.isclose", "isclose") and any(isinstance(a, ast.Constant) for a in n.test.args)]
     if len(snaps) == 1:
         add("SoCCalculator: snapping test negated", MC, [(snaps[0].test, f"not {seg(mc, snaps[0].test)}")], "C18.FORM")
+        if not snaps[0].orelse:  # the bare float quotient reaches the result: 100.00000000000001 for some full pools
+            add("SoCCalculator: snap to 100 removed", MC, [(snaps[0], "pass")], "C18.RANGE")
+    snapx = [n for n in soc_nodes if isinstance(n, ast.IfExp) and isinstance(n.test, ast.Call)
+             and u(n.test.func) in ("math.isclose", "isclose") and any(isinstance(a, ast.Constant) for a in n.test.args)]
+    if len(snapx) == 1 and not snaps:
+        add("SoCCalculator: snap to 100 removed", MC, [(snapx[0], f"({seg(mc, snapx[0].orelse)})")], "C18.RANGE")
     # the working set is replaced exactly when it did not change
     upd = prog.func(f"{METH}:SendOnUpdate.update_working_batteries")
     eqs = [n for n in body_walk(upd.node) if isinstance(n, ast.Compare) and len(n.ops) == 1
@@ -1334,6 +1459,15 @@ def structural_controls(prog: Program) -> list[tuple[str, str, str, str, str]]: 
                 and any(method_call(n.value, ev, "set") for ev in waits)]
         if trig:
             add(f"SendOnUpdate.{m.name}: recomputation not triggered by a changed record", METH, [(t, "pass") for t in trig], "C18.FRESH")
+        # a received record is stored only when it is not older than the cached entry ("keep the most recent sample")
+        sts = [n for n in body_walk(m.node) if isinstance(n, ast.Assign) and len(n.targets) == 1
+               and isinstance(n.targets[0], ast.Subscript) and u(n.targets[0].value) == "self._cached_metrics"
+               and isinstance(n.value, ast.Name)]
+        if len(sts) == 1:
+            k_, v_, pad = seg(ms, sts[0].targets[0].slice), sts[0].value.id, " " * sts[0].col_offset
+            add(f"SendOnUpdate.{m.name}: a record older than the cached entry is not stored", METH,
+                [(sts[0], f"if {k_} not in self._cached_metrics or {v_}.timestamp >= self._cached_metrics[{k_}].timestamp:\n"
+                          f"{pad}    {seg(ms, sts[0])}")], "C18.FRESH")
         from_cache = {t.id for n in body_walk(m.node) if isinstance(n, ast.Assign) and "self._cached_metrics" in u(n.value)
                       for t in n.targets if isinstance(t, ast.Name)}
         neq = [n for n in body_walk(m.node) if isinstance(n, ast.Compare) and len(n.ops) == 1 and isinstance(n.ops[0], ast.NotEq)
@@ -1353,19 +1487,22 @@ def run_rules(run: Run, prog: Program) -> None:
 def check(run: Run, prog: Program, tier: str) -> str:
     run.rule("C18.FORM", "SoC = Σ w·s / Σ w with w = capacity·(upper − lower), s = (soc − lower)/(upper − lower)·100; "
              "capacity = Σ w/100 (same weight)")
-    run.rule("C18.RANGE", "per-battery clamp of s to [0, 100]; no division by a zero total")
+    run.rule("C18.RANGE", "per-battery clamp of s to [0, 100]; no division by a zero total; the float quotient handed to "
+             "the result is bounded above by 100 on every path (snap on isclose(…, 100), `<= 100` test or min(…, 100))")
     run.rule("C18.SCALE", "numerator and denominator homogeneous of degree 1 in capacity")
     run.rule("C18.MONO", "s non-decreasing in soc on both branches")
     run.rule("C18.EXCL", "iteration over working batteries; absent/incomplete batteries skipped before any "
-             "accumulator or sentinel update; None iff none qualified; NaN metrics dropped; working-set "
+             "accumulator or sentinel update; no path of an iteration leaves the loop (break / return / a lookup error "
+             "caught around the loop); None iff none qualified; NaN metrics dropped; working-set "
              "intersection at both sites; eviction of stopped batteries")
     run.rule("C18.FRESH", "a received record that differs from the cached one triggers a recomputation: the event the "
              "sending loop waits for is set on every path that stores a record, except where the record is known equal "
-             "to the entry it replaces — by a record comparison that is exact on the values the calculators read")
+             "to the entry it replaces — by a record comparison that is exact on the values the calculators read; every "
+             "received record (not None) is stored: no filter on timestamps / completeness / working set before the store")
     run_rules(run, prog)
     run.floor("C18.FORM", 6)
     run.floor("C18.EXCL", 14)
-    run.floor("C18.FRESH", 2)
+    run.floor("C18.FRESH", 3)
     from ..engine.controls import run_controls
 
     run_controls(run, CONTROLS + structural_controls(prog), run_rules, tier, base_prog=prog)
